@@ -49,6 +49,11 @@ func c06World(t *testing.T, p c06Params) rt.Result {
 		ps.Passive = p.Dir == "in"
 		ps.IdleHold = time.Second
 		ps.Cfg.NilHandler = p.NilH
+		if p.Seed%3 == 1 {
+			// a plugin that takes half a second to clean up: the connection is closed when
+			// the hold timer expires, not when the plugin is done
+			ps.Cfg.OnCloseFn = func(*hz.Session) { time.Sleep(500 * time.Millisecond) }
+		}
 		var wmu sync.Mutex
 		var curLocal string
 		var curH time.Duration
@@ -111,6 +116,9 @@ func c06World(t *testing.T, p c06Params) rt.Result {
 				busyFor = H + H/10
 			}
 			wmu.Unlock()
+			for i := 0; i < 100 && mon.State() != "Down"; i++ {
+				time.Sleep(10 * time.Millisecond) // the previous session's OnClose may take its time
+			}
 			var rc *hz.RConn
 			if p.Dir == "in" {
 				rc = w.Connect(ps.Addr)
